@@ -325,6 +325,72 @@ def scanYmdHms (s : Bytes) : Option (Int × Int × Int × Int × Int × Int × B
 def timestampOfCivil (y m d h mi se : Int) : Int :=
   (daysFromCivil y m d * 86400 + h * 3600 + mi * 60 + se) * 1000000 + thirtyYearsUs
 
+/-- `%z`: sign (`+`, `-` or U+2212), two digits, any number of `:`/white space, two digits < 60;
+returns the offset in seconds -/
+def scanOffset (s : Bytes) : Option (Int × Bytes) :=
+  let sr : Option (Int × Bytes) := match s with
+    | 43 :: r => some (1, r)
+    | 45 :: r => some (-1, r)
+    | 226 :: 136 :: 146 :: r => some (-1, r)
+    | _ => none
+  match sr with
+  | none => none
+  | some (sg, r) =>
+    match r with
+    | a :: b :: r2 =>
+      if isDigit a && isDigit b then
+        let hh : Int := (parseNat [a, b] : Nat)
+        let r3 := r2.dropWhile fun c => c = 58 || isWs c
+        match r3 with
+        | c :: d :: r4 =>
+          if isDigit c && isDigit d then
+            let mm : Int := (parseNat [c, d] : Nat)
+            if mm < 60 then some (sg * (hh * 3600 + mm * 60), r4) else none
+          else none
+        | _ => none
+      else none
+    | _ => none
+
+/-- literal `AD` / `BC` -/
+def scanEra : Bytes → Option (Bool × Bytes)
+  | 65 :: 68 :: r => some (false, r)
+  | 66 :: 67 :: r => some (true, r)
+  | _ => none
+
+/-- what may follow `%Y-%m-%d %H:%M:%S` in the eight accepted formats:
+nothing, an era, an offset, era + offset in either order (white space between items is free).
+`none` = no format matches. Result: (is BC, offset seconds). -/
+def parseTsSuffix (s0 : Bytes) : Option (Bool × Option Int) :=
+  let s := skipWs s0
+  if s0 = [] then some (false, none)
+  else match scanEra s with
+  | some (bc, r) =>
+    if r = [] then some (bc, none)
+    else match scanOffset (skipWs r) with
+      | some (off, r2) => if r2 = [] then some (bc, some off) else none
+      | none => none
+  | none =>
+    match scanOffset s with
+    | some (off, r) =>
+      if r = [] then some (false, some off)
+      else match scanEra (skipWs r) with
+        | some (bc, r2) => if r2 = [] then some (bc, some off) else none
+        | none => none
+    | none => none
+
+/-- the general tail of `from_str`: `tz = false` is `Timestamp` (the offset is parsed and ignored),
+`tz = true` is `TimestampTz` (offset must be below 24 h; it is subtracted before the BC year
+mirroring, as `naive_utc_to_timestamp(&dt.naive_utc(), is_bc)` does). -/
+def finishTimestamp (tz : Bool) (y m d h mi se : Int) (bc : Bool) (off : Option Int) : Out Int :=
+  let off' : Int := if tz then off.getD 0 else 0
+  if tz ∧ ¬ (-86400 < off' ∧ off' < 86400) then .err
+  else
+    let total := daysFromCivil y m d * 86400 + h * 3600 + mi * 60 + se - off'
+    let c := civilFromDays (total / 86400)
+    let y' := if bc then -c.1 else c.1
+    if bc ∧ ¬ (chronoMinYear ≤ y' ∧ validYmd y' c.2.1 c.2.2) then .err
+    else .ok ((daysFromCivil y' c.2.1 c.2.2 * 86400 + total % 86400) * 1000000 + thirtyYearsUs)
+
 /-- `Timestamp::from_str` restricted to the shapes `Display` produces (`… HH:MM:SS`, optional
 ` BC`; any other suffix, e.g. a fraction, is rejected).  `none` = outside the modelled grammar
 (time-zone suffixes, ` AD`), the driver then answers `unmodelled`. -/
@@ -339,9 +405,22 @@ def parseTimestamp (s : Bytes) : Option (Out Int) :=
       if se = 60 then none
       else if ¬ (chronoMinYear ≤ -y ∧ validYmd (-y) m d) then some .err
       else some (.ok (timestampOfCivil (-y) m d h mi se))
-    else if rest.head? = some 46 then some .err      -- fraction: `%S` does not take it
-    else none
+    else if se = 60 then none
+    else match parseTsSuffix rest with
+      | none => some .err          -- e.g. a fraction: `%S` does not take it
+      | some (bc, off) => some (finishTimestamp false y m d h mi se bc off)
   | none => some .err     -- every accepted format starts with `%Y-%m-%d %H:%M:%S`
+
+/-- `TimestampTz::from_str` (system offset +00:00) -/
+def parseTimestampTz (s : Bytes) : Option (Out Int) :=
+  match scanYmdHms s with
+  | some (y, m, d, h, mi, se, rest) =>
+    if ¬ (chronoMinYear ≤ y ∧ y ≤ chronoMaxYear ∧ validYmd y m d ∧ h ≤ 23 ∧ mi ≤ 59 ∧ se ≤ 60) then some .err
+    else if se = 60 then none
+    else match parseTsSuffix rest with
+      | none => some .err
+      | some (bc, off) => some (finishTimestamp true y m d h mi se bc off)
+  | none => some .err
 
 /-! ### interval (src/types/interval.rs) -/
 
@@ -418,6 +497,58 @@ def parseInterval (s : Bytes) : Out (Int × Int × Int) :=
   | .ok _ => .err
   | .err => .err
   | .panic => .panic
+
+/-! ### f64 (subset): integer-valued doubles below 2^53, ±0, ±inf, NaN
+
+Rust prints the shortest decimal that round-trips, without exponent; for an integer-valued double
+below 2^53 that is the integer itself. Everything else is outside the modelled subset (`none`). -/
+
+def two52 : Nat := 4503599627370496
+
+/-- (negative, magnitude) when the double is an integer below 2^53 -/
+def f64Int? (b : UInt64) : Option (Bool × Nat) :=
+  let n := b.toNat
+  let neg := decide (two63 ≤ n)
+  let e := (n / two52) % 2048
+  let frac := n % two52
+  if e = 0 ∧ frac = 0 then some (neg, 0)
+  else if 1023 ≤ e ∧ e ≤ 1075 then
+    let sh := 1075 - e
+    let mant := two52 + frac
+    if mant % 2 ^ sh = 0 then some (neg, mant / 2 ^ sh) else none
+  else none
+
+def displayF64? (b : UInt64) : Option Bytes :=
+  if fIsNaN b then some [78, 97, 78]                         -- NaN
+  else if fmag b = infBits then some (if fneg b then [45, 105, 110, 102] else [105, 110, 102])
+  else match f64Int? b with
+    | some (neg, n) => some (if neg then 45 :: natDigits n else natDigits n)
+    | none => none
+
+/-- bits of the double equal to the natural number `n` (0 < n < 2^53) -/
+def f64OfNat (n : Nat) : Nat :=
+  if n = 0 then 0
+  else
+    let e := Nat.log2 n
+    (e + 1023) * two52 + (n * 2 ^ (52 - e) - two52)
+
+/-- `f64::from_str` on the subset: `NaN`, `inf`, `infinity` (any case, optional sign) and
+integer digit strings below 2^53 -/
+def parseF64? (s : Bytes) : Option (Out UInt64) :=
+  let (neg, r) : Bool × Bytes := match s with
+    | 45 :: r => (true, r)
+    | 43 :: r => (false, r)
+    | r => (false, r)
+  let lower := r.map fun c => if 65 ≤ c.toNat ∧ c.toNat ≤ 90 then c + 32 else c
+  let sign : Nat := if neg then two63 else 0
+  if lower = [110, 97, 110] then some (.ok (UInt64.ofNat (sign + 0x7ff8000000000000)))
+  else if lower = [105, 110, 102] ∨ lower = [105, 110, 102, 105, 110, 105, 116, 121] then
+    some (.ok (UInt64.ofNat (sign + infBits)))
+  else if r.isEmpty then some .err
+  else if allDigits r then
+    let n := parseNat r
+    if n < 2 ^ 53 then some (.ok (UInt64.ofNat (sign + f64OfNat n))) else none
+  else none
 
 end V19
 end RlModel
